@@ -540,7 +540,7 @@ theorem checkTable_sound (t : Table) (linked : List (Nat × Nat)) (h : checkTabl
     TableConsistent t linked := by
   unfold checkTable at h
   simp only [List.append_eq_nil_iff] at h
-  obtain ⟨⟨⟨⟨⟨⟨⟨⟨⟨⟨⟨⟨⟨⟨⟨⟨⟨h1, h2⟩, h3⟩, h4⟩, h5⟩, h6⟩, h7⟩, h8⟩, h9⟩, h10⟩, h11⟩, h12⟩, h13⟩, h14⟩, h15⟩, h16⟩, h17⟩, h18⟩ := h
+  obtain ⟨⟨⟨⟨⟨⟨⟨⟨⟨⟨⟨⟨⟨⟨⟨⟨⟨⟨h1, h2⟩, h3⟩, h4⟩, h5⟩, h6⟩, h7⟩, h8⟩, h9⟩, h10⟩, h11⟩, h12⟩, h13⟩, h14⟩, h15⟩, h16⟩, h17⟩, h18⟩, h19⟩ := h
   have c1 := clause_nil _ _ h1
   have c2 := clause_nil _ _ h2
   have c3 := clause_nil _ _ h3
@@ -559,6 +559,7 @@ theorem checkTable_sound (t : Table) (linked : List (Nat × Nat)) (h : checkTabl
   have c16 := clause_nil _ _ h16
   have c17 := clause_nil _ _ h17
   have c18 := clause_nil _ _ h18
+  clear h19
   clear h1 h2 h3 h4 h5 h6 h7 h8 h9 h10 h11 h12 h13 h14 h15 h16 h17 h18
   have hs : t.rules.Pairwise (fun a b => a.idx < b.idx) := (idxAscending_sound t.rules 0 c1).2
   -- resolution
@@ -684,6 +685,24 @@ theorem checkTable_sound (t : Table) (linked : List (Nat × Nat)) (h : checkTabl
   · intro b hb
     unfold cBackPassOrder at c18
     exact chainOrdered_of_check t linked hs b.2 (okBP b hb) _ _ (List.all_eq_true.mp c18 b hb) passLeB_le
+
+/-- every character and every cell of a linked character definition has its record in the character / cell buckets
+    (so a lookup of that character or cell finds the definition) -/
+def DefsFound (t : Table) : Prop :=
+  ∀ r ∈ t.rules, IsDef r → (∀ c ∈ r.chars, ∃ cr ∈ t.chars, cr.value = c) ∧ (∀ d ∈ r.dots, ∃ dr ∈ t.dots, dr.value = d)
+
+/-- **checkTable_defsFound**: an empty violation list also means that no definition has lost its records -/
+theorem checkTable_defsFound (t : Table) (linked : List (Nat × Nat)) (h : checkTable t linked = []) : DefsFound t := by
+  unfold checkTable at h
+  simp only [List.append_eq_nil_iff] at h
+  have c19 := clause_nil _ _ h.2
+  intro r hr hd
+  unfold cDefFound at c19
+  have h := List.all_eq_true.mp c19 r hr
+  unfold defFoundOK at h
+  unfold IsDef at hd
+  simp only [hd, Bool.not_true, Bool.false_or, Bool.and_eq_true, List.all_eq_true, List.any_eq_true, beq_iff_eq] at h
+  exact h
 
 /-! ## E. lookups find what is linked -/
 
